@@ -36,7 +36,8 @@ class Node:
         self.kind, self.recipe, self.obj, self.children, self.extra = kind, recipe, obj, list(children), extra
 
 
-GLOM_FAULTS = ('UGlomErr', 'UGlomErrInit', 'UGlomMixed', 'UGlomArity', 'UGlomKwOnly', 'UGlomRewrite', 'UGlomLookup')
+GLOM_FAULTS = ('UGlomErr', 'UGlomErrInit', 'UGlomMixed', 'UGlomArity', 'UGlomKwOnly', 'UGlomRewrite', 'UGlomLookup',
+               'UGlomMultiline')
 
 
 def build(G, B, r):
@@ -81,6 +82,9 @@ def build(G, B, r):
         if 'default' in o:
             kw['default'] = B.value(o['default'])
         return Node(k, r, getattr(G, k)(*[c.obj for c in ch], **kw), ch, extra=o)
+    if k == 'Check':
+        c = build(G, B, r[1])
+        return Node('Check', r, G.Check(c.obj, equal_to=r[2]['equal_to']), [c], extra=r[2])
     if k == 'Switch':
         ch = []
         cases = []
@@ -231,6 +235,12 @@ class Walker:
                 if e.is_glom and 'default' in n.extra:
                     return n.extra['default']
                 raise
+        if k == 'Check':
+            v = self.ev(n.children[0], t)
+            if v != n.extra['equal_to']:
+                # the Check itself fails, AFTER its sub-spec was evaluated successfully
+                raise MErr('CheckError', 'failed check', True, n, t)
+            return t
         if k == 'Switch':
             failed = []
             pairs = list(zip(n.children[0::2], n.children[1::2]))
@@ -288,6 +298,12 @@ def parse_trace(message):
     while j < len(lines):
         m = _LINE.match(lines[j])
         if not m:
+            if lines[j].startswith('>>') and body:
+                # continuation of a multi-line error message (only the first line carries the gutter)
+                d_, t_, txt_ = body[-1]
+                body[-1] = (d_, t_, txt_ + '\n' + lines[j])
+                j += 1
+                continue
             break
         body.append((len(m.group(1)) - 1, m.group(1)[-1], m.group(2)))
         j += 1
@@ -420,6 +436,8 @@ def embed(root, record, fmt):
 def _block_has_error(blk, etype, marker):
     for x in blk:
         if x.typ == 'E' and etype in x.text and (marker is None or marker in x.text):
+            if etype == 'UGlomMultiline' and '>>second line' not in x.text:
+                continue
             return True
         for b in x.blocks:
             if _block_has_error(b, etype, marker):
